@@ -418,3 +418,138 @@ theorem Online.receive_spec {cfg : Cfg} (hc : cfg.Ok) {o : Online} (h : o.Inv cf
     exact ⟨_, _, _, _, rfl, ⟨hinv.pn, hinv.pnv, hinv.nv, hinv.cnt, hinv.size, hinv.data, hinv.rq⟩, hfl, hs⟩
 
 end Tw.Conn
+
+/-! ## C02: no call hangs; the send timer stays armed -/
+namespace Tw.Conn
+open Tw.Time
+
+/-- the result is a value or a panic — never `Fail.hang` -/
+def NoHang {α : Type} (r : Except Fail α) : Prop := r ≠ .error .hang
+
+theorem writeChunk_nohang (cfg : Cfg) (p : PacketContents) (d : Bytes) (v : Option (Nat × Bool)) :
+    NoHang (p.writeChunk cfg d v) := by
+  unfold NoHang PacketContents.writeChunk
+  repeat' split
+  all_goals simp
+
+theorem queue_nohang (cfg : Cfg) (now : Nat) (o : Online) (d : Bytes) (v : Bool) : NoHang (o.queue cfg now d v) := by
+  have h1 := writeChunk_nohang cfg o.packet d
+  have h2 := writeChunk_nohang cfg o.packetNonvital d
+  unfold NoHang at *
+  unfold Online.queue
+  cases v with
+  | true =>
+    simp only [if_true]
+    split
+    · simp
+    · cases h : o.packet.writeChunk cfg d (some (seqNext o.sequence, false)) with
+      | error e => simp only; intro he; injection he with he; subst he; exact h1 _ h
+      | ok p => simp
+  | false =>
+    simp only [Bool.false_eq_true, if_false]
+    cases h : o.packetNonvital.writeChunk cfg d none with
+    | error e => simp only; intro he; injection he with he; subst he; exact h2 _ h
+    | ok pn =>
+      simp only
+      cases h' : o.packet.writeChunk cfg d none with
+      | error e => simp only; intro he; injection he with he; subst he; exact h1 _ h'
+      | ok p => simp
+
+theorem send_nohang (cfg : Cfg) (now : Nat) (o : Online) (d : Bytes) (v : Bool) : NoHang (o.send cfg now d v) := by
+  unfold NoHang Online.send
+  split
+  · simp
+  · simp only
+    cases h : (if (!o.packet.canFit d.length v) = true then o.flush else (o, [])).1.queue cfg now d v with
+    | error e =>
+      simp only
+      have := queue_nohang cfg now (if (!o.packet.canFit d.length v) = true then o.flush else (o, [])).1 d v
+      unfold NoHang at this
+      intro he; injection he with he; subst he; exact this h
+    | ok o2 => simp
+
+/-- the repaired resend loop cannot hang, and keeps an armed send timer armed -/
+theorem resendLoop_nohang (cfg : Cfg) (now : Nat) :
+    ∀ (todo : List ResendChunk) (o : Online) (send : Timeout) (acc : List Flushed),
+      NoHang (resendLoop cfg now todo o send acc) ∧
+      ∀ o' send' fl, resendLoop cfg now todo o send acc = .ok (o', send', fl) →
+        send.isActive = true → send'.isActive = true := by
+  intro todo
+  induction todo with
+  | nil =>
+    intro o send acc
+    refine ⟨by simp [NoHang, resendLoop], ?_⟩
+    intro o' send' fl h hs
+    simp only [resendLoop] at h
+    injection h with h; injection h with h1 h2; injection h2 with h2 h3
+    rw [← h2]; exact hs
+  | cons c rest ih =>
+    intro o send acc
+    unfold resendLoop
+    simp only
+    split
+    · rename_i e he
+      refine ⟨?_, by intro _ _ _ h; cases h⟩
+      have := writeChunk_nohang cfg (if o.packet.canFit c.data.length true = true then o else o.flush.1).packet
+        c.data (some (c.seq, true))
+      unfold NoHang at this ⊢
+      intro h; injection h with h; subst h; exact this he
+    · rename_i p hp
+      obtain ⟨h1, h2⟩ := ih { (if o.packet.canFit c.data.length true = true then o else o.flush.1) with packet := p }
+        (if o.packet.canFit c.data.length true = true then send else Timeout.after now sendUs)
+        (if o.packet.canFit c.data.length true = true then acc else acc ++ o.flush.2)
+      refine ⟨h1, ?_⟩
+      intro o' send' fl h hs
+      apply h2 o' send' fl h
+      split
+      · exact hs
+      · rfl
+
+theorem resend_nohang (cfg : Cfg) (now : Nat) (o : Online) (send : Timeout) :
+    NoHang (o.resend cfg now send) ∧
+    ∀ o' send' fl, o.resend cfg now send = .ok (o', send', fl) → send.isActive = true → send'.isActive = true := by
+  unfold Online.resend
+  split
+  · refine ⟨by simp [NoHang], ?_⟩
+    intro o' send' fl h hs
+    injection h with h; injection h with h1 h2; injection h2 with h2 h3
+    rw [← h2]; exact hs
+  · exact resendLoop_nohang cfg now _ _ send []
+
+theorem receive_nohang (cfg : Cfg) (now : Nat) (o : Online) (send : Timeout) (rr : Bool) (cs : List Chunk) :
+    NoHang (o.receive cfg now send rr cs) ∧
+    ∀ o' send' fl evs, o.receive cfg now send rr cs = .ok (o', send', fl, evs) →
+      send.isActive = true → send'.isActive = true := by
+  obtain ⟨h1, h2⟩ := resend_nohang cfg now o send
+  unfold NoHang at h1
+  unfold Online.receive NoHang
+  cases rr with
+  | false =>
+    simp only [Bool.false_eq_true, if_false]
+    split
+    · simp
+    · refine ⟨by simp, ?_⟩
+      intro o' send' fl evs h hs
+      injection h with h; injection h with _ h; injection h with h _
+      rw [← h]; exact hs
+  | true =>
+    simp only [if_true]
+    cases hr : o.resend cfg now send with
+    | error e =>
+      simp only
+      refine ⟨?_, by intro _ _ _ _ h; cases h⟩
+      intro h; injection h with h; subst h; exact h1 hr
+    | ok r =>
+      obtain ⟨o2, send2, fl2⟩ := r
+      simp only
+      split
+      · simp
+      · refine ⟨by simp, ?_⟩
+        intro o' send' fl evs h hs
+        injection h with h; injection h with _ h; injection h with h _
+        rw [← h]; exact h2 o2 send2 fl2 hr hs
+
+theorem feedAck_nohang (o : Online) (ack : Nat) : NoHang (o.feedAck ack) := by
+  unfold NoHang Online.feedAck; split <;> simp
+
+end Tw.Conn
